@@ -80,9 +80,9 @@ UTIdx(n) == [p \in 1..((n * (n - 1)) \div 2) |->
 \* rounding (2); kind "sim": exactly -num/q
 BaseBad(o) ==
   LET g == CaseG IN
-  IF ~SafeCase(g) THEN {"case-too-close-to-the-floor"}
+  IF ~SafeCase(g) THEN {"unsafe-case"}
   ELSE IF o.size # g.n \/ Len(o.ut) # (g.n * (g.n - 1)) \div 2 THEN {"size"}
-  ELSE IF o.bad # 0 THEN {"non-finite-or-huge-value"}
+  ELSE IF o.bad # 0 THEN {"non-finite-value"}
   ELSE LET ix == UTIdx(g.n) IN
        IF \A p \in 1..Len(o.ut) :
              LET v == g.num[ix[p][1]][ix[p][2]] IN
@@ -90,7 +90,7 @@ BaseBad(o) ==
                   THEN /\ CloseI(o.ut[p], ExpNeg(RoundDiv(v * ES, g.den)), ElemErr + 2)
                        /\ (v = 0) => o.ut[p] = 10000
                   ELSE Abs(o.ut[p] * g.q + v * 10000) <= g.q
-       THEN {} ELSE {"similarity-not-as-specified"}
+       THEN {} ELSE {"similarity"}
 
 -----------------------------------------------------------------------------
 (* "clust": the returned labels are explained iff Merge steps of the design model (restricted to merges inside *)
@@ -107,7 +107,7 @@ SamePart(a, b, n) == \A i, j \in 1..n : (a[i] = a[j]) <=> (b[i] = b[j])
 
 ClustBad(o) ==
   LET g == CaseG IN
-  IF ~(o.ok /\ o.size = g.n /\ Len(o.labels) = g.n /\ o.ci \in 1..Len(In.crits)) THEN {"not-a-labelling-of-all-samples"}
+  IF ~(o.ok /\ o.size = g.n /\ Len(o.labels) = g.n /\ o.ci \in 1..Len(In.crits)) THEN {"not-a-labelling"}
   \* same criterion and same partition as the previous, already explained, event
   ELSE IF e > 1 /\ Case.ev[e - 1].ev = "clust" /\ Case.ev[e - 1].ci = o.ci /\ SamePart(o.labels, Case.ev[e - 1].labels, g.n) THEN {}
   ELSE LET cr == In.crits[o.ci]
@@ -115,7 +115,7 @@ ClustBad(o) ==
            mode == ModeOf(g)
        IN IF ~CountOK(g, cr, P) THEN {"cluster-count"}
           ELSE IF mode = "exact"
-                 THEN (IF CanReach(g, In.link, cr, P, Singletons(g), InitWt(g, In.link)) THEN {} ELSE {"no-merge-sequence-gives-this-partition"})
+                 THEN (IF CanReach(g, In.link, cr, P, Singletons(g), InitWt(g, In.link)) THEN {} ELSE {"no-merge-sequence"})
           ELSE IF mode = "weak" /\ cr.t \in {"dist", "lnrat", "floor"}
                  THEN (IF WeakDist(g, cr, P) THEN {} ELSE {"threshold-clusters"})
           ELSE {}
@@ -123,7 +123,7 @@ ClustBad(o) ==
 EvBad == IF Ev.ev = "base" THEN BaseBad(Ev)
          ELSE IF Ev.ev = "clust" THEN ClustBad(Ev)
          ELSE IF Ev.ev = "end" /\ e = Len(Case.ev) THEN {}
-         ELSE {"unexplained-event"}
+         ELSE {"unexplained"}
 
 \* one step per event: explained -> next event (the last one prints OK), otherwise FAIL and the case ends rejected
 TStep ==
